@@ -425,11 +425,11 @@ func c04ConcExtra(w *harness.World, cr *concRun) {
 
 func c04ConcDrivers() []concParams {
 	return []concParams{
-		{Name: "sync-joins-nosync-group", Cfg: "default/bytewise", Clients: [][]string{{"put:a"}, {"Sput:b"}}, QB: 3, TB: 4, Expect: "noerr"},
-		{Name: "nosync-joins-sync-group", Cfg: "default/bytewise", Clients: [][]string{{"Sput:a"}, {"put:a"}}, QB: 3, TB: 4, Expect: "noerr"},
-		{Name: "3-writers-mixed", Cfg: "default/bytewise", Pre: []string{"put:a"}, Clients: [][]string{{"put:a"}, {"Sdel:a"}, {"put:b", "Sput:b"}}, QB: 2, TB: 3, Expect: "noerr"},
-		{Name: "batches-mixed", Cfg: "default/bytewise", Clients: [][]string{{"w:+a,+b"}, {"Sw:+b,+c"}, {"put:c"}}, QB: 2, TB: 3, Expect: "noerr"},
-		{Name: "mixed-no-merge", Cfg: "default/bytewise", NoMerge: true, Clients: [][]string{{"put:a"}, {"Sput:b"}, {"put:b"}}, QB: 2, TB: 3, Expect: "noerr"},
+		{Name: "sync-joins-nosync-group", Cfg: "roomy/bytewise", Clients: [][]string{{"put:a"}, {"Sput:b"}}, QB: 3, TB: 4, Expect: "noerr"},
+		{Name: "nosync-joins-sync-group", Cfg: "roomy/bytewise", Clients: [][]string{{"Sput:a"}, {"put:a"}}, QB: 3, TB: 4, Expect: "noerr"},
+		{Name: "3-writers-mixed", Cfg: "roomy/bytewise", Pre: []string{"put:a"}, Clients: [][]string{{"put:a"}, {"Sdel:a"}, {"put:b", "Sput:b"}}, QB: 2, TB: 3, Expect: "noerr"},
+		{Name: "batches-mixed", Cfg: "roomy/bytewise", Clients: [][]string{{"w:+a,+b"}, {"Sw:+b,+c"}, {"put:c"}}, QB: 2, TB: 3, Expect: "noerr"},
+		{Name: "mixed-no-merge", Cfg: "roomy/bytewise", NoMerge: true, Clients: [][]string{{"put:a"}, {"Sput:b"}, {"put:b"}}, QB: 2, TB: 3, Expect: "noerr"},
 		{Name: "mixed-with-rotation", Cfg: "flushy/bytewise", Clients: [][]string{{"Sput:a"}, {"put:b"}, {"Sput:a"}}, QB: 1, TB: 2, Expect: "noerr"},
 		{Name: "overflow-handoff-mixed", Cfg: "wide/bytewise", Clients: [][]string{{"put:a"}, {"SputL:b"}, {"Sput:a"}}, QB: 2, TB: 3, Expect: "noerr"},
 		{Name: "transaction-vs-sync-writer", Cfg: "bigbatch/bytewise", Pre: []string{"put:a"}, Clients: [][]string{{"tr:+a,+b"}, {"Sput:a"}}, QB: 1, TB: 2, Expect: "noerr"},
